@@ -7,6 +7,7 @@ CONSTANTS
   Tofu = {"off", "first", "match", "changed", "unreadable"}
   DevSendInConnectionMade = FALSE
   DevLookupErrorEscapes = FALSE
+  DevNonSuccessAtClose = FALSE
   DevUnreadableSkipsCheck = FALSE
 CONSTRAINT Report
 CHECK_DEADLOCK FALSE
